@@ -101,6 +101,9 @@ func (s *simStore) cancelNow(rec *callRec) {
 	if s.cfg.Cancel != nil {
 		s.cfg.Cancel()
 		s.mu.Lock()
+		if rec.Faulted == "" {
+			rec.Faulted = "cancel"
+		}
 		s.fired["caller_cancel"]++
 		if s.inflight >= 2 {
 			s.probes["cancel_while_other_driver_calls_in_flight"]++
